@@ -35,6 +35,6 @@ fn k09_change_style_all_pairs() {
         i += 1;
     }
     assert!(cur.mono == new.mono && cur.bold == new.bold && cur.italic == new.italic);
-    kani::cover!(n == 26);
+    kani::cover!(n == 23);
     std::mem::forget(res);
 }
